@@ -22,6 +22,12 @@ CLAIMED = {
          "Covers ASCII, cased and caseless non-ASCII, supplementary-plane and boundary-length names; exceptional case mappings excluded (no independent source)."),
  "C10": ("model_checking", "5 C10", "TLC trace validation: every refused call must leave the image hash unchanged and the model state untouched; refusals enumerated from the MC_Tree graph",
          "Refusal x state coverage is measured on the model graph, not hoped for."),
+ "C06": ("model_checking", "5 C06", "CfbHandle (TLA+ transcription of the stream cache) model checked against a reference byte vector; MC_Handle transition coverage and random call sequences replayed on real handles and judged by TLC (Trace_Handle) for every max_buffer_size",
+         "Exhaustive at model geometry for several buffer sizes; real-scale replays under six buffer sizes x two versions with extreme seek arguments."),
+ "C12": ("fault_enumeration", "5 C12", "every k-th backend read/seek fails; TLC (Trace_Handle, ro_faults mode) requires Err or the fault-free result and correct bytes after retry; CfbHandle model checked with one injected fault",
+         "Every single fault position of the workloads (pairs in thorough); design-level model covers all interleavings of one fault with the cache protocol."),
+ "C13": ("fault_enumeration", "5 C13", "every k-th backend write/seek/flush fails; TLC (Trace_Handle, rw_faults mode) requires the call to report the error, no later panic, and Ok flush => fresh-handle read-back equals accepted writes; CfbHandle FlushDurable model checked with faults",
+         "Every single fault position of the workloads (pairs in thorough) with retry of the failed call."),
  "C15": ("model_checking", "5 C15", "TLC trace validation of net-zero cycles (checked on the model) with a NoGrowth assertion on logged file lengths",
          "Cycle templates x sizes x mini-stream fill levels at and around sector multiples."),
  "C17": ("model_checking", "5 C17", "TLC trace validation of metadata setters/getters against CfbTree; FILETIME quantisation table from Python big integers",
